@@ -292,3 +292,75 @@ func establishedVia(sa *statusAn, b *ssa.BasicBlock, local func(b *ssa.BasicBloc
 	}
 	return false
 }
+
+// feasibleUnder: some acyclic path to block b is consistent with the boolean parameter values env (and with itself:
+// no value is required both true and false).
+func feasibleUnder(b *ssa.BasicBlock, env map[*ssa.Parameter]bool) bool {
+	for _, alt := range backPaths(b, nil, 256) {
+		seen := map[ssa.Value]bool{}
+		ok := true
+		for _, cd := range alt {
+			v, truth := cd.V, cd.Truth
+			for {
+				un, isNot := v.(*ssa.UnOp)
+				if !isNot || un.Op != token.NOT {
+					break
+				}
+				v, truth = un.X, !truth
+			}
+			if p, isP := v.(*ssa.Parameter); isP {
+				if want, bound := env[p]; bound && want != truth {
+					ok = false
+					break
+				}
+			}
+			if prev, had := seen[v]; had && prev != truth {
+				ok = false
+				break
+			}
+			seen[v] = truth
+		}
+		if ok {
+			return true
+		}
+	}
+	return false
+}
+
+// constBoolArgs: the boolean parameters of callee that this call binds to constants.
+func constBoolArgs(call ssa.CallInstruction, callee *ssa.Function) map[*ssa.Parameter]bool {
+	env := map[*ssa.Parameter]bool{}
+	for i, a := range call.Common().Args {
+		if k, ok := a.(*ssa.Const); ok && k.Value != nil && isBoolType(k.Type()) && i < len(callee.Params) {
+			env[callee.Params[i]] = k.Value.String() == "true"
+		}
+	}
+	return env
+}
+
+// effectiveReturns: the returns through which a call of f comes back, where `return h(..., true)` of a helper of the
+// same package is replaced by h's own returns that are feasible with the constant boolean arguments
+// (SendAndClose -> send(ctx, data, true)). One level.
+func effectiveReturns(f *ssa.Function) []*ssa.Return {
+	var out []*ssa.Return
+	for _, ret := range returnsOf(f) {
+		if ret.Block() == f.Recover {
+			continue
+		}
+		if call := tailCallOf(ret); call != nil {
+			if h := call.Call.StaticCallee(); h != nil && h.Blocks != nil && h.Pkg == f.Pkg && h != f {
+				env := constBoolArgs(call, h)
+				if len(env) > 0 {
+					for _, hr := range returnsOf(h) {
+						if hr.Block() != h.Recover && feasibleUnder(hr.Block(), env) {
+							out = append(out, hr)
+						}
+					}
+					continue
+				}
+			}
+		}
+		out = append(out, ret)
+	}
+	return out
+}
